@@ -864,3 +864,64 @@ def g2(prog):
                          "msg": "`?AT_x` / `@AT_x` no longer find exactly the attributes reachable through DW_AT_specification OR DW_AT_abstract_origin: %s" % bad,
                          "detail": None})
     return inst, findings
+
+
+def i1c(prog):
+    """the import chain and the iterator stack of a cooked traversal move in lockstep: entering an imported unit pushes one
+    level on both, leaving it pops exactly one level of both"""
+    inst, findings = [], []
+    fs = [f for f in prog.funcs.values() if f["q"].startswith("(anonymous namespace)::drop_finished_imports<")]
+    if not fs:
+        raise Broken("anchor drop_finished_imports vanished")
+    f = fs[0]
+    imp = [p for p in f["params"] if "value_die" in p["t"]]
+    stk = [p for p in f["params"] if "std::vector<" in p["t"]]
+    if len(imp) != 1 or len(stk) != 1:
+        raise Broken("drop_finished_imports no longer takes (stack, import)")
+    pops = [c for c in calls(f["body"]) if c.get("fn") == "pop_back" and isinstance(unwrap(c.get("obj")), dict) and unwrap(c["obj"]).get("id") == stk[0]["id"]]
+    assigns = []
+    for x in walk(f["body"]):
+        lhs = rhs = None
+        if x.get("k") == "asg":
+            lhs, rhs = x["lhs"], x["rhs"]
+        elif x.get("k") == "call" and x.get("op") == "=" and len(x.get("a", [])) == 2:
+            lhs, rhs = x["a"][0], x["a"][1]
+        if lhs is not None and isinstance(unwrap(lhs), dict) and unwrap(lhs).get("id") == imp[0]["id"]:
+            assigns.append((x, rhs))
+    key = "I1c:drop_finished_imports"
+    probs = []
+    if len(pops) != 1:
+        probs.append("pops %d levels of the iterator stack" % len(pops))
+    if len(assigns) != 1:
+        probs.append("assigns the import chain %d times" % len(assigns))
+    else:
+        r = unwrap(assigns[0][1])
+        one_level = isinstance(r, dict) and r.get("k") == "call" and r.get("fn") == "get_import" and \
+            isinstance(unwrap(r.get("obj")), dict) and unwrap(r["obj"]).get("id") == imp[0]["id"]
+        if not one_level:
+            probs.append("sets the import chain to `%s` instead of popping one level (import->get_import ())" % short(assigns[0][1])[:40])
+    inst.append((key, {"iterator_pops": len(pops), "chain_updates": [short(a[1])[:40] for a in assigns]}))
+    for p in probs:
+        findings.append({"key": key, "where": f["l"],
+                         "msg": "drop_finished_imports %s: after a nested imported unit ends, the DIEs that follow it in the enclosing partial unit lose (part of) their import chain, so their parent/root stop at the partial unit" % p,
+                         "detail": None})
+    # entering: import = make_shared<value_die>(dwctx, import, ...) together with stack.push_back
+    gs = [g for g in prog.funcs.values() if g["q"].startswith("(anonymous namespace)::import_partial_units<")]
+    if not gs:
+        raise Broken("anchor import_partial_units vanished")
+    g = gs[0]
+    gimp = [p for p in g["params"] if "value_die" in p["t"]]
+    ok = False
+    for x in walk(g["body"]):
+        rhs = None
+        if x.get("k") == "call" and x.get("op") == "=" and len(x.get("a", [])) == 2 and isinstance(unwrap(x["a"][0]), dict) and unwrap(x["a"][0]).get("id") == gimp[0]["id"]:
+            rhs = unwrap(x["a"][1])
+        if x.get("k") == "asg" and isinstance(unwrap(x["lhs"]), dict) and unwrap(x["lhs"]).get("id") == gimp[0]["id"]:
+            rhs = unwrap(x["rhs"])
+        if isinstance(rhs, dict) and rhs.get("k") == "call" and rhs.get("f", "").startswith("std::make_shared<value_die") and len(rhs["a"]) == 5:
+            prev = unwrap(rhs["a"][1])
+            ok = isinstance(prev, dict) and prev.get("id") == gimp[0]["id"]
+    inst.append(("I1c:import_partial_units", {"extends_chain_by_one_level": ok}))
+    if not ok:
+        findings.append({"key": "I1c:import_partial_units", "where": g["l"], "msg": "entering an imported unit no longer extends the import chain by one level on top of the previous chain", "detail": None})
+    return inst, findings
